@@ -91,6 +91,9 @@ type T struct {
 	w    *worker
 	desc func() any
 	fail int
+
+	wantSample bool
+	trace      []string
 }
 
 type worker struct {
@@ -297,6 +300,22 @@ func (e *Env) runOne(w *worker, part string, idx int64, f func(t *T)) {
 		}
 	}()
 	f(t)
+	if t.wantSample && t.desc != nil {
+		// sampled after the case ran, so that histories / probes and what was observed are in it
+		t.Sample(map[string]any{"part": t.Part, "index": t.Idx, "case": t.desc(), "observed": t.trace})
+	}
+}
+
+// Tracef records what the monitor observed for this case (kept only for the
+// few cases that become evidence samples).
+func (t *T) Tracef(format string, args ...any) {
+	if t.wantSample && len(t.trace) < 14 {
+		s := fmt.Sprintf(format, args...)
+		if len(s) > 400 {
+			s = s[:400] + "..."
+		}
+		t.trace = append(t.trace, s)
+	}
 }
 
 // Describe registers the function that expands this case for a replay file or a sample.
@@ -317,15 +336,16 @@ func (t *T) NonTrivial(key string) {
 func (t *T) Sample(v any) {
 	t.E.mu.Lock()
 	defer t.E.mu.Unlock()
-	if len(t.E.samples) < 6 {
+	if len(t.E.samples) < 8 {
 		t.E.samples = append(t.E.samples, v)
 	}
 }
 
-// AutoSample stores the case description for the first indices of each part.
+// AutoSample marks the first cases of each part as evidence samples; the sample
+// (expanded case + observations recorded with Tracef) is stored when the case ends.
 func (t *T) AutoSample() {
-	if t.Idx < 2 && t.desc != nil {
-		t.Sample(map[string]any{"part": t.Part, "index": t.Idx, "case": t.desc()})
+	if t.Idx < 2 {
+		t.wantSample = true
 	}
 }
 
